@@ -32,7 +32,6 @@ class error_html(object):
         @param term: tuple of x12 terminators used
         @type term: tuple(string, string, string, string)
 
-        @bug: GS errors are re-printing at the GE level
         """
         self.errh = errh
         self.fd = fd
@@ -146,12 +145,15 @@ class error_html(object):
                 if err_cde != '3':
                     self.fd.write('<span class="error">&nbsp;%s (Segment Error Code: %s)</span><br />\n' %
                                   (escape_html_chars(err_str), err_cde))
+            at_trailer = seg_data.get_seg_id() in ('IEA', 'GE', 'SE')
             for ele in err_node.elements:
+                if err_node.id in ('ISA', 'GS', 'ST') and ele.in_trailer != at_trailer:
+                    # the loop node holds the element errors of its header and of its trailer
+                    continue
                 for (err_cde, err_str, err_val) in ele.get_error_list(seg_data.get_seg_id(), False):
                 #for (err_cde, err_str, err_val) in ele.errors:
-                    if not (seg_data.get_seg_id() == 'GE' and 'GS' in err_str):  # Ugly hack
-                        self.fd.write('<span class="error">&nbsp;%s (Element Error Code: %s)</span><br />\n' %
-                                      (escape_html_chars(err_str), err_cde))
+                    self.fd.write('<span class="error">&nbsp;%s (Element Error Code: %s)</span><br />\n' %
+                                  (escape_html_chars(err_str), err_cde))
 
     def _seg_str(self, seg_id, ele_list):
         """
